@@ -38,7 +38,9 @@ def fx(name, value) -> bool:
 
 
 def vinfo(y, m, bidv, tag_i, major, minor, patch):
-    return version.V1VersionInfo(year=y if "year" in FIELDS else None, quarter=None, month=m if "month" in FIELDS else None,
+    # as the reader delivers it: the quarter is derived from the month
+    return version.V1VersionInfo(year=y if "year" in FIELDS else None, quarter=((m - 1) // 3 + 1) if "month" in FIELDS else None,
+                                 month=m if "month" in FIELDS else None,
                                  dom=None, doy=None, iso_week=None, us_week=None, major=major, minor=minor, patch=patch,
                                  bid=("0" * BID_ZEROS + str(bidv)) if "bid" in FIELDS else "0001", tag=TAGS[tag_i])
 
@@ -120,6 +122,38 @@ def incr_greater(y: int, m: int, bidv: int, tag_i: int, major: int, minor: int, 
             return False
         return int(nv.bid) > int(vi.bid) and len(nv.bid) >= len(vi.bid) and nv.bid > vi.bid
     return (nv.major, nv.minor, nv.patch) > (major, minor, patch)
+
+
+def incr_doy(y: int, j: int, ty: int, tj: int, bidv: int, pin_date: bool) -> bool:
+    """legacy day-of-year versions (v{year}d{doy}.{bid}{release}): the announced (year, day) is never earlier than the old one
+    (an old version later than today keeps its date), and the build id grows
+    pre: 2000 <= y <= 2099 and 1 <= j <= 366 and 2000 <= ty <= 2099 and 1 <= tj <= 366 and 1000 <= bidv <= 9998
+    pre: fx("pin_date", pin_date) and fx("bidv", bidv)
+    post: _
+    """
+    if j > symcal.days_in_year(y) or tj > symcal.days_in_year(ty):
+        return True
+    ft = symcal.fields(ty, tj)
+    # the old state is what the real reader makes of the groups 'year', 'doy', 'bid' (calendar stub bound; FieldStr -> int for free)
+    with symcal.Bound():
+        vi = v1version._parse_field_values({"year": symcal.FieldStr(y), "doy": symcal.FieldStr(j), "bid": str(bidv)})
+    today = version.V1CalendarInfo(year=ty, quarter=ft["quarter"], month=ft["month"], dom=ft["dom"], doy=tj,
+                                   iso_week=ft["week_w"], us_week=ft["week_u"])
+    saved = (v1version.parse_version_info, v1version.format_version, v1version.cal_info)
+    v1version.parse_version_info = lambda version_str, raw_pattern="x": vi
+    v1version.format_version = lambda vinfo, raw_pattern: Rendered(vinfo)
+    v1version.cal_info = lambda date=None: today
+    try:
+        new = cli.incr_dispatch(Rendered(vi), raw_pattern=PAT, pin_date=pin_date)
+    finally:
+        v1version.parse_version_info, v1version.format_version, v1version.cal_info = saved
+    if new is None:
+        return False      # the build id always changes, so a version is announced
+    nv = new.vinfo
+    if not ((nv.year, nv.doy) >= (y, j)):
+        return False
+    want = (y, j) if (pin_date or (y, j) > (ty, tj)) else (ty, tj)
+    return (nv.year, nv.doy) == want and int(nv.bid) > bidv
 
 
 def legacy_gate(a1: int, b1: int, c1: int, a2: int, b2: int, c2: int) -> bool:
